@@ -207,6 +207,25 @@ class Normalizer(ast.NodeTransformer):
         inside = {id(n) for n in ast.walk(loop)}
         return {n.id for n in ast.walk(fn) if isinstance(n, ast.Name) and id(n) not in inside}
 
+    # ------------------------------------------------------------------ N10: a, b = x, y  ->  a = x ; b = y
+    def visit_Assign(self, node):
+        self.generic_visit(node)
+        if len(node.targets) == 1 and isinstance(node.targets[0], (ast.Tuple, ast.List)) \
+                and isinstance(node.value, (ast.Tuple, ast.List)) \
+                and len(node.targets[0].elts) == len(node.value.elts) \
+                and all(isinstance(t, ast.Name) for t in node.targets[0].elts) \
+                and not any(isinstance(v, ast.Starred) for v in node.value.elts):
+            tnames = {t.id for t in node.targets[0].elts}
+            vnames = {x.id for v in node.value.elts for x in ast.walk(v) if isinstance(x, ast.Name)}
+            if not (tnames & vnames):
+                out = []
+                for t, v in zip(node.targets[0].elts, node.value.elts):
+                    a = ast.Assign(targets=[t], value=v, type_comment=None)
+                    out.append(ast.copy_location(a, node))
+                self.count += 1
+                return out
+        return node
+
     # ------------------------------------------------------------------ N9: annotated local -> plain assignment
     def visit_AnnAssign(self, node):
         self.generic_visit(node)
